@@ -310,7 +310,7 @@ Proof.
             let '(x, e) := kv_get_int_check t v (st_int st (it_var it0)) in
             if e =? 0 then
               (true, st_set st (it_var it0) (VI x),
-               mkItem (it_type it0) (it_char it0) (it_name it0) (it_var it0) (it_hasarg it0) (it_kv it0) (Some v))
+               mkItem (it_type it) (it_char it) (it_name it) (it_var it0) (it_hasarg it0) (it_kv it0) (Some v))
             else (false, st_set st (it_var it0) (VI x), it0)
         | _ => (true, st, it0)
         end
@@ -323,9 +323,12 @@ Proof.
         set (bv := st_int (w_store w) (it_var it)) in *.
         destruct (bv <=? 1) eqn:E1.
         + destruct (bv =? 0) eqn:E0.
-          * unfold ini_int, c_strtol. rewrite strtol_false. cbn. rewrite Hit. f_equal. f_equal. f_equal. lia.
-          * unfold ini_int, c_strtol. rewrite strtol_true. cbn. rewrite Hit. f_equal. f_equal. f_equal. lia.
-        + rewrite ini_int_print_dec by (unfold INT_MIN, INT_MAX in *; lia). replace (bv <=? 0) with false by lia. cbn [orb]. rewrite Hit. reflexivity.
+          * change (ini_int s_false) with (0, false). change (ini_boolean s_false) with 0. cbn.
+            rewrite Hit. replace bv with 0 by lia. reflexivity.
+          * change (ini_int s_true) with (0, false). change (ini_boolean s_true) with 1. cbn.
+            rewrite Hit. replace bv with 1 by (unfold INT_MAX in *; lia). reflexivity.
+        + assert (Hr : INT_MIN <= bv <= INT_MAX) by (unfold INT_MIN, INT_MAX in *; lia).
+          rewrite (ini_int_print_dec bv Hr). replace (bv <=? 0) with false by lia. cbn [orb]. rewrite Hit. reflexivity.
       - (* bool *)
         assert (Hit : it0 = it) by (apply Hsd; discriminate).
         destruct (st_int (w_store w) (it_var it) =? 0); cbn; rewrite Hit; reflexivity.
@@ -346,8 +349,80 @@ Proof.
       - (* key-value *)
         destruct Hgood as (key & t & Hsv & Ht & Hfind). rewrite Hsv, Ht.
         unfold kv_get_int_check. rewrite Hfind. cbn [Z.eqb].
-        f_equal. rewrite Ety, Ech, Enm, Evar, Eha, Ekv. rewrite <- Hsv. rewrite <- Et. apply item_eta. }
-    destruct Hsel as [[Hfs Hfl]|[Hfs Hfl]]; rewrite Hfs, Hfl; exact Htyped.
+        f_equal. rewrite Eha. rewrite <- Hsv. rewrite <- Et. apply item_eta. }
+    destruct Hsel as [[Hfs Hfl]|[Hfs Hfl]]; rewrite Hfs, Hfl; cbv beta iota zeta in Htyped |- *; exact Htyped.
+Qed.
+
+
+(* what the loop needs to know about one item and the dictionary *)
+Definition item_cond (w : world) (D : dict) (it : item) : Prop :=
+  file_type (it_type it) = false ->
+  (it_name it = None -> it_char it <> 0) /\
+  (item_skipped w it = false ->
+   dict_get D (full_key (lower (fst (save_prefix_base it))) (snd (save_prefix_base it))) = Some (Some (save_value fmt16 w it))) /\
+  (forall K, In K (absent_keys w it) -> dict_get D K = None) /\
+  value_good w it.
+
+Lemma load_items_saved (w : world) (D : dict) : forall its0 its st,
+  Forall2 same_decl its0 its -> Forall (item_cond w D) its ->
+  load_items strtod D (w_kvs w) (w_sobjs w) st its0 = (0, fold_left (restore_one w) its st, its).
+Proof.
+  intros its0 its st H. revert st. induction H as [|it0 it r0 r Hs _ IH]; intros st Hc; [reflexivity|].
+  inversion Hc as [|? ? Hit Hr]; subst. cbn [load_items fold_left].
+  assert (Hstep : load_item strtod D (w_kvs w) (w_sobjs w) st it0 = (true, restore_one w st it, it)).
+  { destruct (file_type (it_type it)) eqn:Eft.
+    - assert (E0 : it0 = it).
+      { apply same_decl_eq; [exact Hs|]. destruct (it_type it); try discriminate Eft; discriminate. }
+      unfold load_item. rewrite E0, Eft. unfold restore_one, active, item_skipped. rewrite Eft. reflexivity.
+    - destruct (Hit Eft) as (H1 & H2 & H3 & H4).
+      destruct (save_prefix_base it) as [p b] eqn:Epb. cbn [fst snd] in H2.
+      apply (load_item_saved w D st it0 it p b); assumption. }
+  rewrite Hstep. rewrite IH by exact Hr. reflexivity.
+Qed.
+
+(* every active item has its entry among the assignments of the saved file *)
+Lemma items_assigns_in w it : forall its lp, In it its -> item_skipped w it = false ->
+  In (full_key (lower (fst (save_prefix_base it))) (snd (save_prefix_base it)), Some (save_value fmt16 w it))
+     (items_assigns w its lp).
+Proof.
+  induction its as [|x r IH]; intros lp Hin Hsk; [contradiction|].
+  cbn [items_assigns]. destruct Hin as [->|Hin].
+  - rewrite Hsk. destruct (save_prefix_base it) as [p b]. cbn [fst snd]. apply in_or_app. right. left. reflexivity.
+  - destruct (item_skipped w x); [apply IH; assumption|].
+    destruct (save_prefix_base x) as [p b]. apply in_or_app. right. right. apply IH; assumption.
+Qed.
+
+(* ---- reading a variable after the loop ---- *)
+Definition targets (w : world) (x : nat) (it : item) : bool := active w it && Nat.eqb (tvar (w_sobjs w) it) x.
+
+Lemma st_get_set_same st x v : st_get (st_set st x v) x = v.
+Proof. unfold st_set. cbn. rewrite Nat.eqb_refl. reflexivity. Qed.
+
+Lemma st_get_set_other st x y v : x <> y -> st_get (st_set st x v) y = st_get st y.
+Proof. intros H. unfold st_set. cbn. replace (Nat.eqb x y) with false by (symmetry; apply Nat.eqb_neq; exact H). reflexivity. Qed.
+
+Lemma fold_restore_untouched w x : forall its st, existsb (targets w x) its = false ->
+  st_get (fold_left (restore_one w) its st) x = st_get st x.
+Proof.
+  induction its as [|it r IH]; intros st H; [reflexivity|].
+  cbn in H. apply orb_false_iff in H. destruct H as [H1 H2]. cbn [fold_left]. rewrite IH by exact H2.
+  unfold restore_one. unfold targets in H1. destruct (active w it); [|reflexivity].
+  cbn [andb] in H1. apply Nat.eqb_neq in H1. apply st_get_set_other. exact H1.
+Qed.
+
+Lemma fold_restore_get w x r : forall its st,
+  existsb (targets w x) its = true ->
+  (forall it, In it its -> targets w x it = true -> restored w it = r) ->
+  st_get (fold_left (restore_one w) its st) x = r.
+Proof.
+  induction its as [|it rest IH]; intros st Hex Hall; [discriminate Hex|].
+  cbn [fold_left]. destruct (existsb (targets w x) rest) eqn:Er.
+  - apply IH; [reflexivity|]. intros it' Hin. apply Hall. right. exact Hin.
+  - rewrite fold_restore_untouched by exact Er.
+    cbn in Hex. rewrite Er, orb_false_r in Hex.
+    pose proof (Hall it (or_introl eq_refl) Hex) as Hr.
+    unfold targets in Hex. apply andb_true_iff in Hex. destruct Hex as [Ha Hx]. apply Nat.eqb_eq in Hx.
+    unfold restore_one. rewrite Ha. rewrite Hx. rewrite st_get_set_same. exact Hr.
 Qed.
 
 End Load.
